@@ -43,8 +43,10 @@ fn data_catalog() -> Vec<DataDef> {
 fn imm_variants(i: &Instr) -> Vec<Instr> {
     let vals = |w: Option<W>| -> Vec<i32> {
         match w {
-            Some(W::B) => vec![0, 0x7F, 0x80, 0xFF, -1, -128],
-            _ => vec![0, 0x7FFF, 0x8000, 0xFFFF, -1, -32768],
+            // the last values of each list are outside the class: refused, or - if the assembler lets one through -
+            // it must still run
+            Some(W::B) => vec![0, 0x7F, 0x80, 0xFF, -1, -128, 0x100, 0x1F0, 0xFFFF, -129, 0x10000],
+            _ => vec![0, 0x7FFF, 0x8000, 0xFFFF, -1, -32768, 0x10000, -32769, 70000],
         }
     };
     let mut out = Vec::new();
